@@ -105,14 +105,16 @@ CLAIMED["C02"] = dict(
          "20000 paths. " + KKC_NOTE, design="5/C02")
 CLAIMED["C03"] = dict(
     engine="lean+corr_kkc+corr_trie",
-    technique="Lean 4 lemmas on dictionary look-up soundness in the lattice model + differential run with real tries + oracle: "
-              "every word part is a dictionary entry over its span, every matching head word / word after a prefix is offered",
+    technique="Lean 4 proofs on the lattice/search model: soundness of every converted word of every candidate; completeness at the "
+              "head at candidate level from the optimality theorem of C02 and connectability facts of the regenerated score tables "
+              "+ differential run with real tries + oracle on the implementation's untruncated candidate lists",
     text="C03_sound (every converted word of every candidate is a dictionary entry under its own reading over exactly its stretch "
-         "of the input) and C03_head_word_is_node (lattice-level completeness at the head) are proved on the model; soundness and "
-         "completeness are checked on the implementation's untruncated candidate lists for dictionaries whose tries are built by "
-         "the real trie::Trie.",
-    note="PARTIAL: candidate-level completeness (head and after a prefix) is checked by the oracle, not proved (needs C02's "
-         "optimality). " + KKC_NOTE, design="5/C03")
+         "of the input), C03_head_word_is_node and C03_complete_head (for every independent standard word whose reading is a prefix "
+         "of the input, the list contains written form + rest of the input unless it is cut at n) are proved on the model; "
+         "soundness and completeness (head and after a prefix) are also checked on the implementation's untruncated candidate "
+         "lists for dictionaries whose tries are built by the real trie::Trie.",
+    note="PARTIAL: the clause about words right after a leading prefix-affix is checked by the oracle, not proved. "
+         + KKC_NOTE, design="5/C03")
 CLAIMED["C16"] = dict(
     engine="lean+corr_kkc",
     technique="Lean 4 proofs over the regenerated score/merge tables: proper and normal contexts build the same lattice and the "
